@@ -208,34 +208,52 @@ Qed.
 Definition form_values (params : pairs) : pairs :=
   map (fun n => (n, ua_attr (attr_escape (value_of n params)))) (present_fields params).
 
-Ltac split_lookups params :=
-  repeat match goal with
-         | |- context [lookup ?n params] =>
-             let E := fresh "E" in destruct (lookup n params) eqn:E
-         end.
-Ltac rewrite_lookups params :=
-  repeat match goal with
-         | H : lookup _ params = _ |- _ => rewrite H; clear H
-         end.
+Lemma count_named_map (h : string -> string) l k :
+  count_named k (map (fun n => (n, h n)) l) = List.length (filter (String.eqb k) l).
+Proof.
+  unfold count_named. induction l as [|n l IH]; [reflexivity|]. cbn [map filter fst].
+  destruct (String.eqb k n); cbn [List.length]; now rewrite IH.
+Qed.
 
-Local Opaque ua_attr attr_escape text_ok.
+Lemma count_filter (g : string -> bool) l k :
+  g k = true -> List.length (filter (String.eqb k) (filter g l)) = List.length (filter (String.eqb k) l).
+Proof.
+  intros Hg. induction l as [|n l IH]; [reflexivity|]. cbn [filter].
+  destruct (String.eqb k n) eqn:E.
+  - apply String.eqb_eq in E; subst n. rewrite Hg. cbn [filter]. rewrite String.eqb_refl.
+    cbn [List.length]. now rewrite IH.
+  - destruct (g n); [cbn [filter]; rewrite E|]; exact IH.
+Qed.
+
+Lemma exists_in_map (h : string -> string) l k :
+  In k l -> existsb (pair_eqb (k, h k)) (map (fun n => (n, h n)) l) = true.
+Proof.
+  intros Hin. apply existsb_exists. exists (k, h k). split.
+  - apply in_map_iff. now exists k.
+  - unfold pair_eqb; cbn [fst snd]. now rewrite !String.eqb_refl.
+Qed.
+
 Lemma form_field_ok params k v :
   string_in k form_fields = true -> lookup k params = Some v ->
   Nat.eqb (count_named k (form_values params)) 1
   && (if text_ok v then existsb (pair_eqb (k, v)) (form_values params) else true) = true.
 Proof.
-  unfold string_in, form_fields. cbn [existsb]. intros H Hl.
-  assert (Hv : text_ok v = true -> ua_attr (attr_escape v) = v) by apply ua_attr_escape.
-  unfold form_values, present_fields, value_of, form_fields, count_named.
-  repeat (apply orb_true_iff in H as [H | H]; [apply String.eqb_eq in H; subst k|]);
-    try discriminate H;
-    cbn [filter map]; rewrite Hl; split_lookups params; cbn [filter map fst snd String.eqb Ascii.eqb Bool.eqb];
-    rewrite ?Hl; rewrite_lookups params; cbn;
-    (destruct (text_ok v); [rewrite Hv by reflexivity; unfold pair_eqb; cbn [fst snd];
-                            rewrite ?String.eqb_refl; cbn; rewrite ?orb_true_r; reflexivity
-                           | reflexivity]).
+  intros Hk Hl. unfold form_values, present_fields.
+  set (g := fun n => match lookup n params with Some _ => true | None => false end).
+  set (h := fun n => ua_attr (attr_escape (value_of n params))).
+  assert (Hg : g k = true) by (unfold g; now rewrite Hl).
+  assert (Hin : In k form_fields).
+  { unfold string_in in Hk. apply existsb_exists in Hk as [n [Hn E]].
+    apply String.eqb_eq in E; now subst n. }
+  rewrite count_named_map, (count_filter g form_fields k Hg).
+  assert (Hone : List.length (filter (String.eqb k) form_fields) = 1).
+  { unfold form_fields in Hin. cbn [In] in Hin.
+    repeat (destruct Hin as [Hin | Hin]; [subst k; reflexivity|]). contradiction. }
+  rewrite Hone. cbn [Nat.eqb andb].
+  destruct (text_ok v) eqn:Ht; [|reflexivity].
+  assert (Hv : h k = v) by (unfold h, value_of; rewrite Hl; now apply ua_attr_escape).
+  rewrite <- Hv at 1. apply exists_in_map. apply filter_In. now split.
 Qed.
-Local Transparent ua_attr attr_escape text_ok.
 
 Lemma form_clean_model redirect params :
   attr_inert (form_action redirect)
